@@ -166,7 +166,9 @@ impl CsdV1 {
 
     /// Returns the card capacity in 512-byte blocks
     pub fn card_capacity_blocks(&self) -> u32 {
-        let multiplier = self.device_size_multiplier() + self.read_block_length() - 7;
+        // The register comes from the card, so don't let odd values underflow
+        let multiplier =
+            (self.device_size_multiplier() + self.read_block_length()).saturating_sub(7);
         (self.device_size() + 1) << multiplier
     }
 }
@@ -209,7 +211,7 @@ impl CsdV2 {
 
     /// Returns the card capacity in 512-byte blocks
     pub fn card_capacity_blocks(&self) -> u32 {
-        (self.device_size() + 1) * 1024
+        (self.device_size() + 1).saturating_mul(1024)
     }
 }
 
